@@ -27,6 +27,12 @@ func init() {
 		Families: func(c *mon.Config) []mon.Family {
 			hs := c.Pick(6, 9)
 			return []mon.Family{
+				{Name: "cold-start", N: 1, Serial: true, Run: func(w *mon.W, _ int) {
+					l := coldPick(coldPathCalls(), "AllPaths", "Decode")
+					if coldFirst(w, l) && coldLast(w, l) {
+						w.Bucket("cold-start")
+					}
+				}},
 				{Name: "allpaths-small", N: (1 << uint(hs+1)) - 1, Run: c04Small},
 				{Name: "allpaths-windows", Env: 10, N: c.Pick(20000, 1500000), Run: c04Windows},
 				{Name: "decode", Env: 10, N: c.Pick(12000, 1000000), Run: c04Decode},
